@@ -209,7 +209,7 @@ func (g *schemaGen) applied(loc string) []*ref.Directive {
 		used[d.Name] = true
 	}
 	if loc == "FIELD_DEFINITION" || loc == "ENUM_VALUE" || loc == "ARGUMENT_DEFINITION" || loc == "INPUT_FIELD_DEFINITION" {
-		if g.chance("deprecated", 6) {
+		if g.chance("deprecated", 6) && !used["deprecated"] {
 			d := &ref.Directive{Name: "deprecated"}
 			if g.chance("reason", 2) {
 				d.Args = []*ref.Arg{{Name: "reason", Value: &ref.Value{Kind: "String", Raw: "old"}}}
@@ -573,6 +573,23 @@ func TypedSchema() *rapid.Generator[SchemaTree] {
 				d.Args = append(d.Args, a)
 			}
 			g.dirs = append(g.dirs, d)
+		}
+
+		// a schema may declare a directive of the specification itself (section 3.13), here with one
+		// more argument or location than the prelude gives it
+		if g.chance("redeclare", 5) {
+			str := func(nonNull bool) *ref.Type { return &ref.Type{Name: "String", NonNull: nonNull} }
+			switch rapid.IntRange(0, 2).Draw(t, "which") {
+			case 0:
+				g.dirs = append(g.dirs, &ref.DirectiveDef{Name: "deprecated", Desc: g.description(), Locations: []string{"FIELD_DEFINITION", "ARGUMENT_DEFINITION", "INPUT_FIELD_DEFINITION", "ENUM_VALUE", "OBJECT"},
+					Args: []*ref.ArgDef{{Name: "reason", Type: str(false), Default: &ref.Value{Kind: "String", Raw: "No longer supported"}}, {Name: "removedIn", Desc: g.description(), Type: str(false)}}})
+			case 1:
+				g.dirs = append(g.dirs, &ref.DirectiveDef{Name: "include", Desc: g.description(), Locations: []string{"FIELD", "FRAGMENT_SPREAD", "INLINE_FRAGMENT", "QUERY"},
+					Args: []*ref.ArgDef{{Name: "if", Type: &ref.Type{Name: "Boolean", NonNull: true}}}})
+			default:
+				g.dirs = append(g.dirs, &ref.DirectiveDef{Name: "skip", Locations: []string{"FIELD", "FRAGMENT_SPREAD", "INLINE_FRAGMENT"},
+					Args: []*ref.ArgDef{{Name: "if", Type: &ref.Type{Name: "Boolean", NonNull: true}}, {Name: "orElse", Type: &ref.Type{Name: "Boolean"}, Default: &ref.Value{Kind: "Boolean", Raw: "false"}}}})
+			}
 		}
 
 		// interfaces in order; each may implement earlier ones
